@@ -1,9 +1,15 @@
 """Shared machinery of checks C06 and C15 (context/wait layer and compound taskpools).
 
-A *case* is a dict {'units': [...], 'program': [...]} rendered to a harness script (harness/CTX.c).
+A *case* is a dict {'units': [...], 'compose': [...], 'program': [...]} rendered to a harness script (harness/CTX.c).
   unit  = {'kind': 'tp', 'id': i, 'shape': 'chain'|'fork'|'indep', 'n': N, 'delay': d, 'cb': bool,
            'adder': ('master',) | ('task', tp_id, task) | ('cb', tp_id)}
-        | {'kind': 'comp', 'id': c, 'members': [tp ids], 'cb': bool, 'adder': ...}
+        | {'kind': 'comp', 'id': c, 'members': [ids of taskpools or of other compounds], 'cb': bool, 'adder': ...}
+  compose = [(rid, a, b), ...]: all parsec_compose calls of the case in program order, `rid = parsec_compose(a, b)` with a, b plain
+           taskpools or compounds (any composition tree).  As in parsec/compound.c: if a is a compound, b (plain or compound) is appended
+           as a MEMBER of a and a is returned (rid == a); otherwise a NEW compound rid = [a, b] is created.  Ids: plain taskpools 0..M-1,
+           compounds M, M+1, ... in creation order.  unit['members'] of a compound is the result of these calls (sim_compose); only ROOT
+           compounds (never passed to another compose) have 'adder'/'cb', the nested ones are added by the callback of their parent.
+           The composition order of a root is the in-order sequence of its LEAF taskpools (members_closure).
   program = master ops: 'start' 'wait' 'test' 'active' ('add', id) ('tpwait', id) ('stall', us) ('compose1', id)
 All randomness comes from pv.Rng.  The harness transcript (ops => results) is fed to the Lean trace
 acceptor pv_CTX; the property oracles below are written from the property statements and use only the
@@ -60,6 +66,109 @@ def preds(u, task):
     return []
 
 
+# ------------------------------------------------------------------ composition trees
+def sim_compose(calls, ntp=None):
+    """the member lists parsec_compose builds (parsec/compound.c) for the calls [(rid, a, b), ...] -> {cid: [member ids]} (creation order).
+    ntp (optional) = number of plain taskpools: ids below it can never be compounds."""
+    comps = {}
+    for (rid, a, b) in calls:
+        if ntp is not None and (b >= ntp and b not in comps or a >= ntp and a not in comps):
+            raise ValueError('compose %s: unknown operand' % ((rid, a, b),))
+        if a in comps:                      # start is a compound: next (plain or compound) appended as a member, start returned
+            if rid != a:
+                raise ValueError('compose %s: a compound start is returned itself' % ((rid, a, b),))
+            comps[a].append(b)
+        else:                               # start is plain: a new compound [start, next]
+            if rid in comps or (ntp is not None and rid < ntp):
+                raise ValueError('compose %s: result id in use' % ((rid, a, b),))
+            comps[rid] = [a, b]
+    return comps
+
+
+def left_fold_calls(cid, members):
+    """the calls of `compound cid m1 ... mk` = compose(...compose(m1, m2)..., mk)"""
+    return [(cid, members[0], members[1])] + [(cid, cid, m) for m in members[2:]]
+
+
+def comp_members(case):
+    return {u['id']: list(u['members']) for u in case['units'] if u['kind'] == 'comp'}
+
+
+def leaves_of(comps, uid):
+    """in-order leaf taskpools of node uid (comps = {cid: members})"""
+    if uid not in comps:
+        return [uid]
+    out = []
+    for m in comps[uid]:
+        out += leaves_of(comps, m)
+    return out
+
+
+def nodes_of(comps, uid):
+    """all ids of the tree rooted at uid (compounds and leaves)"""
+    out = [uid]
+    for m in comps.get(uid, []):
+        out += nodes_of(comps, m)
+    return out
+
+
+def roots_of(comps):
+    inner = set(m for ms in comps.values() for m in ms)
+    return [c for c in comps if c not in inner]
+
+
+def nesting_depth(comps, uid):
+    """0 for a plain taskpool, 1 for a flat compound, ..."""
+    if uid not in comps:
+        return 0
+    return 1 + max(nesting_depth(comps, m) for m in comps[uid])
+
+
+def arg_kinds(calls):
+    """-> counts of the four (start, next) argument kinds over the compose calls"""
+    out = {'plain/plain': 0, 'comp/plain': 0, 'plain/comp': 0, 'comp/comp': 0}
+    comps = set()
+    for (rid, a, b) in calls:
+        out['%s/%s' % ('comp' if a in comps else 'plain', 'comp' if b in comps else 'plain')] += 1
+        comps.add(rid)
+    return out
+
+
+FOLDS = ['left', 'right', 'random']
+
+
+def gen_tree(rng, leaves, fold):
+    """a binary composition tree over the leaves in that order: int = leaf, (l, r) = parsec_compose(l, r)"""
+    if fold == 'left':
+        t = leaves[0]
+        for x in leaves[1:]:
+            t = (t, x)
+        return t
+    if fold == 'right':
+        t = leaves[-1]
+        for x in reversed(leaves[:-1]):
+            t = (x, t)
+        return t
+    if len(leaves) == 1:
+        return leaves[0]
+    k = rng.range(1, len(leaves) - 1)
+    return (gen_tree(rng, leaves[:k], fold), gen_tree(rng, leaves[k:], fold))
+
+
+def tree_calls(tree, nid, calls):
+    """emit the compose calls of the C expression `tree` (arguments evaluated left to right, then the call: post-order).
+    Returns (id of the value, next fresh id)."""
+    if isinstance(tree, int):
+        return tree, nid
+    a, nid = tree_calls(tree[0], nid, calls)
+    b, nid = tree_calls(tree[1], nid, calls)
+    if any(c[0] == a for c in calls):       # a is a compound: returned itself
+        calls.append((a, a, b))
+        return a, nid
+    calls.append((nid, a, b))
+    return nid, nid + 1
+
+
 def gen_case(rng, big=False, want_compound=None, risky=False):
     ntp = rng.range(1, 9 if not big else 26)
     tps = []
@@ -88,21 +197,29 @@ def gen_case(rng, big=False, want_compound=None, risky=False):
     if want_compound is None:
         want_compound = rng.chance(3, 5)
     nid = ntp
-    comps = []
-    while want_compound and len(free) >= 2 and (ncomp == 0 or rng.chance(1, 3)):
+    calls = []
+    folds = {}
+    while want_compound and len(free) >= 2 and ncomp < 2 and (ncomp == 0 or rng.chance(1, 3)):
         k = rng.range(2, min(len(free), 20 if big else 5))
         mem = []
         for _ in range(k):
             mem.append(free.pop(rng.below(len(free))))
-        comps.append({'kind': 'comp', 'id': nid, 'members': mem, 'cb': rng.chance(3, 4), 'cbdelay': rng.choice([0, 300, 1000, 3000])})
-        nid += 1
+        fold = rng.choice(FOLDS)
+        root, nid = tree_calls(gen_tree(rng, mem, fold), nid, calls)
+        folds[root] = fold
         ncomp += 1
-    member_of = {}
-    for c in comps:
-        for m in c['members']:
-            member_of[m] = c['id']
-            tps[m]['cb'] = False        # the compound owns on_complete of its members
-    top = [tps[i] for i in free] + comps
+    cm = sim_compose(calls, ntp)
+    comps = []
+    for cid in sorted(cm):
+        c = {'kind': 'comp', 'id': cid, 'members': cm[cid]}
+        if cid in folds:                # a root: added by the test, may have a callback; the nested ones belong to their parent
+            c.update({'fold': folds[cid], 'cb': rng.chance(3, 4), 'cbdelay': rng.choice([0, 300, 1000, 3000])})
+        comps.append(c)
+        for m in cm[cid]:
+            if m < ntp:
+                tps[m]['cb'] = False    # the compound owns on_complete of its members
+    roots = [c for c in comps if c['id'] in folds]
+    top = [tps[i] for i in free] + roots
     # random order; adders only from earlier units
     order = []
     pool = list(top)
@@ -119,7 +236,7 @@ def gen_case(rng, big=False, want_compound=None, risky=False):
             u['adder'] = ('cb', rng.choice(cand_cb))
         else:
             u['adder'] = ('master',)
-        seen_tps += [u['id']] if u['kind'] == 'tp' else list(u['members'])
+        seen_tps += [u['id']] if u['kind'] == 'tp' else leaves_of(cm, u['id'])
     if order and order[0]['adder'] != ('master',):
         order[0]['adder'] = ('master',)
     # master program
@@ -179,15 +296,21 @@ def gen_case(rng, big=False, want_compound=None, risky=False):
         prog.append('active')
         if rng.chance(1, 3):
             prog.append('test')
-    return {'units': tps + comps, 'program': prog}
+    return {'units': tps + comps, 'compose': calls, 'program': prog}
 
 
 def norm(case):
-    """tuples instead of lists after a JSON round trip"""
+    """tuples instead of lists after a JSON round trip; a case in the old format (flat compounds, no 'compose') gets the left folds"""
     c = {'units': [dict(u) for u in case['units']], 'program': [op if isinstance(op, str) else tuple(op) for op in case['program']]}
     for u in c['units']:
         if 'adder' in u:
             u['adder'] = tuple(u['adder'])
+        if u['kind'] == 'comp':
+            u['members'] = list(u['members'])
+    if 'compose' in case:
+        c['compose'] = [tuple(x) for x in case['compose']]
+    else:
+        c['compose'] = [x for u in c['units'] if u['kind'] == 'comp' for x in left_fold_calls(u['id'], u['members'])]
     return c
 
 
@@ -198,11 +321,11 @@ def render(case):
     for u in units:
         if u['kind'] == 'tp':
             L.append('tp %d %s %d %d' % (u['id'], u['shape'], u['n'], u['delay']))
+    for (rid, a, b) in case['compose']:
+        L.append('compose %d %d %d' % (rid, a, b))
+    inner = set(m for u in units if u['kind'] == 'comp' for m in u['members'])
     for u in units:
-        if u['kind'] == 'comp':
-            L.append('compound %d %s' % (u['id'], ' '.join(map(str, u['members']))))
-    for u in units:
-        if u.get('cb'):
+        if u.get('cb') and not (u['kind'] == 'comp' and u['id'] in inner):
             L.append('cb %d' % u['id'])
             if u.get('cbdelay'):
                 L.append('cbdelay %d %d' % (u['id'], u['cbdelay']))
@@ -221,14 +344,15 @@ def render(case):
 
 
 def drop_unit(case, uid):
-    """case without unit uid (and without everything that depended on it); None if impossible"""
+    """case without unit uid (and without everything that depended on it); None if impossible.
+    A composition tree goes as a whole: dropping any of its nodes (leaf, nested compound, root) drops all of them."""
     case = norm(case)
     units = [dict(u) for u in case['units']]
     byid = {u['id']: u for u in units}
     gone = set()
 
     def kill(i):
-        if i in gone:
+        if i in gone or i not in byid:
             return
         gone.add(i)
         u = byid[i]
@@ -262,6 +386,7 @@ def drop_unit(case, uid):
             v['adder'] = ('cb', ren[ad[1]])
         out.append(v)
     out.sort(key=lambda x: x['id'])
+    calls = [(ren[r], ren[a], ren[b]) for (r, a, b) in case['compose'] if r not in gone and a not in gone and b not in gone]
     prog = []
     for op in case['program']:
         if isinstance(op, tuple) and op[0] in ('add', 'tpwait', 'tpwaitlate', 'compose1'):
@@ -270,7 +395,7 @@ def drop_unit(case, uid):
             prog.append((op[0], ren[op[1]]) + tuple(op[2:]))
         else:
             prog.append(op)
-    return {'units': out, 'program': prog}
+    return {'units': out, 'compose': calls, 'program': prog}
 
 
 # ------------------------------------------------------------------ running
@@ -375,11 +500,8 @@ def index_events(case, ev):
 
 
 def members_closure(case, uid):
-    l = [x for x in case['units'] if x['id'] == uid]
-    if not l:
-        return [uid]
-    u = l[0]
-    return list(u['members']) if u['kind'] == 'comp' else [uid]
+    """the LEAF taskpools of uid in composition order (in-order over nested compounds); [uid] for a plain taskpool"""
+    return leaves_of(comp_members(case), uid)
 
 
 def last_te(info, tp):
@@ -535,28 +657,37 @@ def oracle_C06(case, ev, info):
 
 def oracle_C15(case, ev, info):
     """Statement: composed taskpools run in composition order (no task of a later one starts before every task of the
-    earlier ones completed) and the compound completes exactly once, after the last one."""
+    earlier ones completed) and the compound completes exactly once, after the last one.  The composition order of a
+    tree of parsec_compose calls is the in-order sequence of its leaf taskpools: a nested compound runs as a whole at
+    its member position."""
     out = []
-    for u in case['units']:
-        if u['kind'] != 'comp':
+    comps = comp_members(case)
+    byid = {u['id']: u for u in case['units']}
+    for cid in roots_of(comps):
+        u = byid[cid]
+        ls = leaves_of(comps, cid)
+        if not info[cid]['add'] and not any(info[m]['tb'] for m in ls):
             continue
-        cid, ms = u['id'], u['members']
-        if not info[cid]['add'] and not any(info[m]['tb'] for m in ms):
-            continue
-        for a in range(len(ms)):
-            for b in range(a + 1, len(ms)):
-                fb = first_tb(info, ms[b])
-                if fb is not None and not all_done_before(info, ms[a], fb):
-                    out.append(('composition-order', 'compound %d: a task of member #%d (taskpool %d) started at event %d before every task of member #%d (taskpool %d) completed' % (cid, b, ms[b], fb, a, ms[a])))
-        nm = len([1 for (k, t, x, y) in ev if k == 'mcb' and x == cid])
-        if nm != len(ms):
-            out.append(('member-callbacks', 'compound %d: %d member completion callbacks for %d members' % (cid, nm, len(ms))))
+        for a in range(len(ls)):
+            for b in range(a + 1, len(ls)):
+                fb = first_tb(info, ls[b])
+                if fb is not None and not all_done_before(info, ls[a], fb):
+                    out.append(('composition-order', 'compound %d (leaves in composition order %s): a task of leaf #%d (taskpool %d) started at event %d before every task of leaf #%d (taskpool %d) completed' % (cid, ls, b, ls[b], fb, a, ls[a])))
+        # one member completion callback per member, for the root and for every nested compound
+        for c in nodes_of(comps, cid):
+            if c not in comps:
+                continue
+            nm = len([1 for (k, t, x, y) in ev if k == 'mcb' and x == c])
+            if nm != len(comps[c]):
+                out.append(('member-callbacks', 'compound %d%s: %d member completion callbacks for %d members' % (c, '' if c == cid else ' (nested in %d)' % cid, nm, len(comps[c]))))
+            if c != cid and info[c]['cb']:
+                out.append(('nested-compound-callback', 'compound %d is a member of another compound but a test callback ran for it' % c))
         if u.get('cb'):
             cbs = info[cid]['cb']
             if len(cbs) != 1:
                 out.append(('compound-callback-not-once', 'compound %d: completion callback ran %d times' % (cid, len(cbs))))
-            elif not all(all_done_before(info, m, cbs[0]) for m in ms):
-                out.append((KEY_COMPOUND_EARLY, 'compound %d (members %s): its completion callback ran at event %d, before the tasks of its members completed (first member task at event %s)' % (cid, ms, cbs[0], first_tb(info, ms[0]))))
+            elif not all(all_done_before(info, m, cbs[0]) for m in ls):
+                out.append((KEY_COMPOUND_EARLY, 'compound %d (leaves %s): its completion callback ran at event %d, before the tasks of its taskpools completed (first task of the first one at event %s)' % (cid, ls, cbs[0], first_tb(info, ls[0]))))
     for x in oracle_tasks(case, ev, info):
         out.append(('task-execution', x))
     return out
@@ -657,7 +788,8 @@ def run_common(ctx, res, prop, oracle, known_keys, want_compound, lines_override
     outs = run_parallel([(exe, [render(c) for c in cs], K, sched, keep, 300 if quick else 900, 25) for (lab, cs, K, sched, keep) in jobs],
                         maxpar=5 if quick else 6)
     dist = {'histories': 0, 'events': 0, 'epochs': 0, 'threads': {}, 'schedulers': {}, 'taskpools': 0, 'compounds': 0,
-            'compound_sizes': {}, 'adds_by_master': 0, 'adds_by_task': 0, 'adds_by_callback': 0, 'taskpool_waits': 0,
+            'compound_sizes': {}, 'root_compounds': 0, 'compose_calls': 0, 'compose_folds': {}, 'compose_leaves': {}, 'max_nesting_depth': 0,
+            'compose_arg_kinds': {'plain/plain': 0, 'comp/plain': 0, 'plain/comp': 0, 'comp/comp': 0}, 'adds_by_master': 0, 'adds_by_task': 0, 'adds_by_callback': 0, 'taskpool_waits': 0,
             'refused_calls': 0, 'tasks': 0, 'stalls_hit': 0, 'tpwait_entered_during_callback': 0, 'runtime_traces': 0}
     rt_ops = []
     seen_v = set()
@@ -705,6 +837,18 @@ def run_common(ctx, res, prop, oracle, known_keys, want_compound, lines_override
             dist['threads'][str(K)] = dist['threads'].get(str(K), 0) + 1
             dist['schedulers'][sched] = dist['schedulers'].get(sched, 0) + 1
             dist['taskpools'] += len([1 for u in case['units'] if u['kind'] == 'tp'])
+            ncase = norm(case)
+            cm = comp_members(ncase)
+            dist['compose_calls'] += len(ncase['compose'])
+            for kk, vv in arg_kinds(ncase['compose']).items():
+                dist['compose_arg_kinds'][kk] += vv
+            for c in roots_of(cm):
+                dist['root_compounds'] += 1
+                fold = [u for u in case['units'] if u['id'] == c][0].get('fold', 'left')
+                dist['compose_folds'][fold] = dist['compose_folds'].get(fold, 0) + 1
+                nl = str(len(leaves_of(cm, c)))
+                dist['compose_leaves'][nl] = dist['compose_leaves'].get(nl, 0) + 1
+                dist['max_nesting_depth'] = max(dist['max_nesting_depth'], nesting_depth(cm, c))
             for u in case['units']:
                 if u['kind'] == 'comp':
                     dist['compounds'] += 1
